@@ -37,6 +37,7 @@ var AllFaultKinds = []string{
 	"transport", "status500", "statusother", "notjson", "notarray", "tooshort", "toolong", "errors", "errorsall", "errorswithdata", "nodata", "nulldata",
 	"emptylistforobject",
 	"nonode", "nodestring", "nodelist", "listforobject", "objectforlist", "scalarinlist", "nullleaf", "extrakey",
+	"nodenull", "nodenullall",
 }
 
 // firstObjectField finds (depth-first) a key of m whose value satisfies pred and replaces it.
@@ -79,15 +80,46 @@ func (f FaultSpec) Apply(applied *bool) Fault {
 		}
 		pos := f.Pos
 		if f.Match != "" {
-			pos = -1
+			// the service answers THIS request this way, wherever and however often it occurs in the call (the same
+			// lookup may be in the batch twice, for two places of the result, in an order that may vary)
+			var ps []int
 			for i, r := range reqs {
 				if Identity(r.Query, r.Variables) == f.Match {
-					pos = i
+					ps = append(ps, i)
 				}
 			}
-			if pos < 0 {
+			if len(ps) == 0 {
 				return 0, nil, nil, false
 			}
+			if len(ps) > 1 {
+				cur := honest
+				st, out, any := 0, []byte(nil), false
+				for _, p := range ps {
+					g := f
+					g.Match, g.Pos = "", p
+					a := false
+					s2, o2, e2, h2 := g.Apply(&a)(svc, call, reqs, cur)
+					if !h2 {
+						continue
+					}
+					if e2 != nil || s2 != 200 {
+						*applied = true
+						return s2, o2, e2, true
+					}
+					var next []map[string]interface{}
+					if json.Unmarshal(o2, &next) != nil || len(next) != len(cur) {
+						*applied = true
+						return s2, o2, e2, true // the answer is no longer one entry per request: nothing more to do per position
+					}
+					cur, st, out, any = next, s2, o2, true
+				}
+				if !any {
+					return 0, nil, nil, false
+				}
+				*applied = true
+				return st, out, nil, true
+			}
+			pos = ps[0]
 		}
 		if pos >= len(honest) {
 			pos = len(honest) - 1
@@ -163,6 +195,24 @@ func (f FaultSpec) Apply(applied *bool) Fault {
 			} else {
 				ok = false
 			}
+		case "nodenull":
+			// not a failure at all: the service does not know the entity
+			if _, has := data["node"]; has {
+				data["node"] = nil
+			} else {
+				ok = false
+			}
+		case "nodenullall":
+			// the service knows none of the entities it is asked for in this call
+			ok = false
+			for _, r := range resp {
+				if d, _ := r["data"].(map[string]interface{}); d != nil {
+					if _, has := d["node"]; has {
+						d["node"] = nil
+						ok = true
+					}
+				}
+			}
 		case "nodestring":
 			if _, has := data["node"]; has {
 				data["node"] = "not-an-object"
@@ -215,5 +265,48 @@ func ScalarLeaves(v interface{}, acc map[string]bool) {
 	case nil:
 	default:
 		acc[fmt.Sprintf("%v", x)] = true
+	}
+}
+
+// SparseFault makes every service ignorant of a fixed part of the entities, in every call of the
+// operation: node(id:) lookups for an id with hash(salt, service, id) % 3 != 0 are answered with
+// node: null (a legitimate answer: the service does not know the entity).  What it leaves behind are
+// objects that hold nothing but helper fields, at several depths at once.
+func SparseFault(salt int, applied *bool) Fault {
+	return func(svc string, call int, reqs []gqlReq, honest []map[string]interface{}) (int, []byte, error, bool) {
+		var resp []map[string]interface{}
+		b, _ := json.Marshal(honest)
+		json.Unmarshal(b, &resp)
+		changed := false
+		for i, r := range reqs {
+			id, ok := r.Variables["id"].(string)
+			if !ok || i >= len(resp) {
+				continue
+			}
+			d, _ := resp[i]["data"].(map[string]interface{})
+			if d == nil {
+				continue
+			}
+			if _, has := d["node"]; !has {
+				continue
+			}
+			h := salt
+			for _, c := range svc + "|" + id {
+				h = h*31 + int(c)
+			}
+			if h < 0 {
+				h = -h
+			}
+			if h%3 != 0 {
+				d["node"] = nil
+				changed = true
+			}
+		}
+		if !changed {
+			return 0, nil, nil, false
+		}
+		*applied = true
+		out, _ := json.Marshal(resp)
+		return 200, out, nil, true
 	}
 }
